@@ -3,6 +3,7 @@ package main
 
 import (
 	"fmt"
+	"strings"
 
 	"github.com/lyraproj/pcore/pcore"
 	"github.com/lyraproj/pcore/px"
@@ -93,10 +94,26 @@ func run(cfg *lib.Config, res *lib.Result) {
 	x5 := lat.Ext5Types(lib.NewRng(cfg.Seed^0x5eed05), cfg.Thorough())
 	xt = append(xt, x5...)
 	xv = append(xv, lat.Ext5Values(x5)...)
+	// sixth wave: Enums with long value lists (a shortcut taken above some length must answer as the scan does), alone and
+	// in member positions, with the strings at and around the lists in either spelling
+	xt = append(xt, lat.LongEnumFamilies(true)...)
+	xv = append(xv, lat.LongEnumValues()...)
+	// parameterized Object types P[arg] (types.objectTypeExtension) with instances of P
+	xt = append(xt, lat.ParamObjectFamilies()...)
+	xv = append(xv, lat.ParamObjectValues()...)
 	u := lat.NewUniverseWith(rng, nRandom, 0, xt, xv)
 	u.FillInst()
 	u.FillAsg()
 	for _, c := range u.Crashes {
+		if in, ok := c.Input.(map[string]interface{}); ok {
+			a, _ := in["a"].(*lat.Spec)
+			b, _ := in["b"].(*lat.Spec)
+			t, _ := in["t"].(*lat.Spec)
+			if (lat.IsParamObject(a) && lat.IsParamObject(b)) || lat.IsParamObject(t) {
+				// open finding: the case-expression match of two type arguments panics for some pairs of kinds
+				c.Tags = append(c.Tags, "param-object-extension-match-panics")
+			}
+		}
 		res.Violate(c)
 	}
 	res.Extra["types"] = len(u.L)
@@ -131,18 +148,24 @@ func run(cfg *lib.Config, res *lib.Result) {
 	}
 	type pair struct{ a, b int }
 	var truePairs, falsePairs []pair
+	// types that hold a long Enum stay out of the randomly drawn model-tie cases (some KB of text per occurrence, and their
+	// strings would multiply the rows of the regexp oracle table): they have a file of their own, cases_longenum
+	heavy := make([]bool, nT)
+	for t := 0; t < nT; t++ {
+		heavy[t] = lat.HasLongEnum(u.Specs[t])
+	}
 	for a := 0; a < nT; a++ {
 		for b := 0; b < nT; b++ {
 			res.Evaluations++
 			if !u.Asg[a][b] {
 				res.Count("asg.false")
-				if u.InM[a] && u.InM[b] {
+				if u.InM[a] && u.InM[b] && !heavy[a] && !heavy[b] {
 					falsePairs = append(falsePairs, pair{a, b})
 				}
 				continue
 			}
 			res.Count("asg.true")
-			if u.InM[a] && u.InM[b] {
+			if u.InM[a] && u.InM[b] && !heavy[a] && !heavy[b] {
 				truePairs = append(truePairs, pair{a, b})
 			}
 			if excluded(u, a, b) {
@@ -209,7 +232,7 @@ func run(cfg *lib.Config, res *lib.Result) {
 	type tv struct{ t, v int }
 	var tvs []tv
 	for t := 0; t < nT; t++ {
-		if !u.InM[t] {
+		if !u.InM[t] || heavy[t] {
 			continue
 		}
 		for v := 0; v < nV; v++ {
@@ -217,6 +240,78 @@ func run(cfg *lib.Config, res *lib.Result) {
 				tvs = append(tvs, tv{t, v})
 			}
 		}
+	}
+	// M: long Enums on every run: every type of the long-Enum family (defined once in the prelude) against the strings at and
+	// around the lists, in either spelling, alone and inside an array / as a hash key; and the answers of the family's types to
+	// each other where the two lengths multiply to at most 400 (C03 sends the same pairs and a sample of the costlier ones)
+	{
+		fam := lat.LongEnumFamilies(true)
+		pos := map[string]int{}
+		for i := 0; i < nT; i++ {
+			pos[u.Specs[i].String()] = i + 1
+		}
+		vpos := map[string]int{}
+		for i := 0; i < nV; i++ {
+			vpos[u.VSpec[i].String()] = i + 1
+		}
+		var prelude strings.Builder
+		var lists lat.StrListTable
+		var idx, famIdx []int
+		for fi, sp := range fam {
+			if sp.K == "Pattern" {
+				continue
+			}
+			if i := pos[sp.String()] - 1; i >= 0 && u.InM[i] {
+				fmt.Fprintf(&prelude, "Definition LE%d : ty := %s.\n", len(idx), lists.GTy(u.Dec[i]))
+				idx = append(idx, i)
+				famIdx = append(famIdx, fi)
+			}
+		}
+		cf := &lib.CasesFile{Imports: []string{"Model.Base", "Model.Ty", "Model.Lattice", "Corr.CorrC01"}, Typ: "ty * value * bool",
+			Obligations: map[string]string{"inst_model": "inst_mismatches orc cases", "asg_model": "asg_mismatches orc le_asg"}}
+		lvs := lat.LongEnumValues()
+		for k, t := range idx {
+			for vi, vs := range lvs {
+				v := vpos[vs.String()] - 1
+				if v < 0 || !u.VInM[v] {
+					continue
+				}
+				if u.Inst[t][v] {
+					res.Count("longenum.inst.true")
+				} else {
+					res.Count("longenum.inst.false")
+				}
+				cf.Add(fmt.Sprintf("(LE%d, %s, %s)", k, lat.GVal(u.VDec[v]), lib.GBool(u.Inst[t][v])), map[string]interface{}{"kind": "le-inst", "i": famIdx[k], "j": vi})
+			}
+		}
+		var rows []string
+		for ka, a := range idx {
+			for kb, b := range idx {
+				bare := func(i int) bool { k := u.Dec[i].K; return k == "Enum" || k == "StringVal" || k == "StringSz" }
+				if !((bare(a) && bare(b)) || u.Dec[a].K == u.Dec[b].K) || lat.LongEnumCost(u.Specs[a])*lat.LongEnumCost(u.Specs[b]) > 400 {
+					continue
+				}
+				rows = append(rows, fmt.Sprintf("(LE%d, LE%d, %s)", ka, kb, lib.GBool(u.Asg[a][b])))
+				cf.Inputs = append(cf.Inputs, map[string]interface{}{"kind": "le-asg", "i": famIdx[ka], "j": famIdx[kb]})
+			}
+		}
+		// (le_asg is written in chunks: a flat list literal of that length overflows coqc's stack)
+		prelude.WriteString("Definition le_asg : list (ty * ty * bool) :=\n")
+		const chunk = 1500
+		for i := 0; i < len(rows); i += chunk {
+			j := i + chunk
+			if j > len(rows) {
+				j = len(rows)
+			}
+			prelude.WriteString(" " + lib.GList(rows[i:j], "ty * ty * bool") + " ++\n")
+		}
+		prelude.WriteString(" [].\n")
+		// indices of the second obligation continue behind the instance cases, as the recorded inputs do
+		cf.Obligations["asg_model"] = fmt.Sprintf("List.map (N.add %d%%N) (asg_mismatches orc le_asg)", len(cf.Cases))
+		cf.Prelude = lists.Defs.String() + prelude.String() + lat.Oracle(map[string]bool{}, map[string]bool{})
+		res.Extra["long-enum-types-in-model-tie"] = len(idx)
+		res.Extra["long-enum-asg-pairs-in-model-tie"] = len(rows)
+		res.CorrFiles = append(res.CorrFiles, cf.WriteTo(cfg.Out, "cases_longenum"))
 	}
 	for s := 0; s < 2; s++ {
 		cf := &lib.CasesFile{Imports: []string{"Model.Base", "Model.Ty", "Model.Lattice", "Corr.CorrC01"}, Typ: "ty * value * bool",
@@ -242,7 +337,12 @@ func run(cfg *lib.Config, res *lib.Result) {
 
 // tags for known-finding matchers: the kinds of the two top-level constructors
 func tags(u *lat.Universe, a, b int) []string {
-	return []string{"pair:" + u.Dec[a].K + "<-" + u.Dec[b].K}
+	ts := []string{"pair:" + u.Dec[a].K + "<-" + u.Dec[b].K}
+	if lat.IsParamObject(u.Specs[a]) && lat.IsParamObject(u.Specs[b]) {
+		// open finding: P[x] accepts P[y] by the case-expression match of the two ARGUMENTS (objectTypeExtension.testAssignable)
+		ts = append(ts, "param-object-extension-accepts-by-argument-match")
+	}
+	return ts
 }
 
 func replay(cfg *lib.Config, res *lib.Result) {
@@ -253,9 +353,21 @@ func replay(cfg *lib.Config, res *lib.Result) {
 			B    *lat.Spec  `json:"b"`
 			T    *lat.Spec  `json:"t"`
 			V    *lat.VSpec `json:"v"`
+			I    int        `json:"i"`
+			J    int        `json:"j"`
 		}
 		lib.Remarshal(in, &x)
 		res.Evaluations++
+		switch x.Kind {
+		case "le-inst", "le-asg":
+			// the long-Enum family, named by position
+			fam := lat.LongEnumFamilies(true)
+			if x.Kind == "le-asg" {
+				x.Kind, x.A, x.B = "asg", fam[x.I], fam[x.J]
+			} else {
+				x.Kind, x.T, x.V = "inst", fam[x.I], lat.LongEnumValues()[x.J]
+			}
+		}
 		switch x.Kind {
 		case "hist":
 			replayHist(in, res)
